@@ -27,10 +27,15 @@
    routes (new, from a map key, Child, Parent, RelativeTo, nested to any depth);  nx_eval e = the result (a name,
    nil, not relative, a reported error, or a runtime fault of a slice expression);  tn_equals = Equals;
    visible_eqb = equality of the canonical forms that the visible parts determine;  tn_ok = the field is empty or
-   is that form. *)
-From Coq Require Import ZArith NArith Bool List.
+   is that form.
+   The three representations of the parameter of a URI type (nothing, a *url.URL, a Hash) are explicit in
+   Model/KeysUri.v:  uparams = UNone | UUrl u | UHash es;  url_to_hash = urlToHash (the parts of a URL as a Hash);
+   params_as_hash = paramsAsHash;  uri_equals t ot = t.Equals(ot), a branch per representation of the receiver as in the
+   code;  uri_key = the bytes of px.ToKey of the type;  uri_wf = the parameter Hash is a well formed Hash without
+   NaN / Sensitive, a Hash parameter is not empty (newUriType3). *)
+From Coq Require Import ZArith NArith Bool String List.
 From PcoreV Require Import Model.Base Model.Keys Model.KeysIndex Model.KeysCache Model.KeysNames Proofs.KeysOrder Proofs.KeysCode Proofs.KeysTypes
-  Proofs.KeysProofs Proofs.KeysIndexProofs Proofs.KeysCacheProofs Proofs.KeysNamesProofs.
+  Proofs.KeysProofs Proofs.KeysIndexProofs Proofs.KeysCacheProofs Proofs.KeysNamesProofs Model.KeysUri Proofs.KeysUriProofs.
 Import ListNotations.
 Open Scope Z_scope.
 
@@ -423,3 +428,69 @@ Definition C07_statement_typesets : Prop := forall a b, ts_eqb a b = true -> ts_
 Theorem C07_typeset_key_by_content_refuted : exists a b, ts_eqb a b = true /\ ts_key a <> ts_key b.
 Proof. exact typeset_key_by_content_refuted. Qed.
 Print Assumptions C07_typeset_key_by_content_refuted.
+
+(* ------------------------------------------------------------------------------------------ *)
+(* URI types: one parameter, three internal representations (Model/KeysUri.v) *)
+
+(* whatever the representations of the two operands, Equals is: both or neither without parameter, and the parameter
+   hashes (paramsAsHash) equal *)
+Theorem C07_uri_type_equals_by_parts : forall a b, uri_wf a = true -> uri_wf b = true ->
+  uri_equals a b = Bool.eqb (is_none a) (is_none b) && veq (VHash (params_as_hash a)) (VHash (params_as_hash b)).
+Proof. exact uri_equals_spec. Qed.
+Print Assumptions C07_uri_type_equals_by_parts.
+
+(* the same answer whichever operand receives the call (every combination of representations), reflexive, transitive *)
+Theorem C07_uri_type_laws : forall a b c, uri_wf a = true -> uri_wf b = true -> uri_wf c = true ->
+  uri_equals a a = true /\ uri_equals a b = uri_equals b a /\
+  (uri_equals a b = true -> uri_equals b c = true -> uri_equals a c = true).
+Proof.
+  intros a b c Ha Hb Hc. split; [exact (uri_equals_refl a Ha)|]. split; [exact (uri_equals_sym a b Ha Hb)|].
+  exact (uri_equals_trans a b c Ha Hb Hc).
+Qed.
+Print Assumptions C07_uri_type_laws.
+
+(* the same hash key exactly when equal *)
+Theorem C07_uri_type_key_iff_eq : forall a b, uri_wf a = true -> uri_wf b = true ->
+  (uri_key a = uri_key b <-> uri_equals a b = true).
+Proof. exact uri_key_iff_eq. Qed.
+Print Assumptions C07_uri_type_key_iff_eq.
+
+(* the representation is not observable: types with the same parts answer every Equals question alike, as receiver
+   and as argument, and have one key; the URL form and the Hash form of the same parts are one type *)
+Theorem C07_uri_type_representation_not_observable : forall a b c, uri_wf a = true -> uri_wf b = true -> uri_wf c = true ->
+  params_as_hash a = params_as_hash b -> is_none a = is_none b ->
+  uri_equals a c = uri_equals b c /\ uri_equals c a = uri_equals c b /\ uri_key a = uri_key b.
+Proof. exact uri_same_parts. Qed.
+Print Assumptions C07_uri_type_representation_not_observable.
+
+Theorem C07_uri_type_url_form_is_its_hash_form : forall u, uri_wf (UUrl u) = true -> url_to_hash u <> [] ->
+  uri_equals (UUrl u) (UHash (url_to_hash u)) = true /\ uri_equals (UHash (url_to_hash u)) (UUrl u) = true /\
+  uri_key (UUrl u) = uri_key (UHash (url_to_hash u)).
+Proof. exact uri_url_equals_its_hash_form. Qed.
+Print Assumptions C07_uri_type_url_form_is_its_hash_form.
+
+(* what a url.URL holds besides its parts ('?' without a query, the escaped path and fragment) is not read *)
+Theorem C07_uri_type_hidden_url_fields_not_read : forall u fq rp rf, url_to_hash (with_hidden u fq rp rf) = url_to_hash u.
+Proof. exact url_hidden_fields_not_read. Qed.
+Print Assumptions C07_uri_type_hidden_url_fields_not_read.
+
+(* a URL without any part ('', '#', '?', '//') is not the absent parameter: unequal in both directions, other key *)
+Theorem C07_uri_type_url_without_parts_is_not_default : forall u,
+  uri_equals (UUrl u) UNone = false /\ uri_equals UNone (UUrl u) = false /\ uri_key (UUrl u) <> uri_key UNone.
+Proof. exact uri_url_without_parts_is_not_default. Qed.
+Print Assumptions C07_uri_type_url_without_parts_is_not_default.
+
+(* 'HTTP://Example.com:80/a?' as parsed by net/url (scheme lower case, ForceQuery) against the Hash form in another
+   order; the URL without parts against no parameter *)
+Definition ex_url : url :=
+  mkUrl (bytes_of "http") None (bytes_of "Example.com:80") (Some 80) (bytes_of "/a") [] [] [] true [] [].
+Definition ex_uhash : uparams :=
+  UHash [ent "path" (VStr (bytes_of "/a")); ent "port" (VInt 80); ent "host" (VStr (bytes_of "example.com")); ent "scheme" (VStr (bytes_of "http"))].
+Definition ex_nourl : url := mkUrl [] None [] None [] [] [] [] true [] [].
+Example C07_ex_uri_type :
+  uri_wf (UUrl ex_url) = true /\ uri_wf ex_uhash = true /\
+  uri_equals (UUrl ex_url) ex_uhash = true /\ uri_equals ex_uhash (UUrl ex_url) = true /\ uri_key (UUrl ex_url) = uri_key ex_uhash /\
+  uri_equals (UUrl ex_url) (UUrl (with_hidden ex_url false (bytes_of "/%61") [])) = true /\
+  url_to_hash ex_nourl = [] /\ uri_wf (UUrl ex_nourl) = true /\ uri_equals (UUrl ex_nourl) UNone = false /\
+  uri_key UNone = [1; 116; 85; 82; 73; 4]%N /\ uri_key (UUrl ex_nourl) = [1; 116; 85; 82; 73; 0; 72; 4; 4]%N.
+Proof. repeat split; vm_compute; reflexivity. Qed.
